@@ -135,6 +135,10 @@ TIDS = [
     {"protocol_id": 5, "iscsi_name": "iqn.2004-10.de.m\u00fcnchen:speicher-\u00e4"},
     {"protocol_id": 5, "tpid_format": 1, "iscsi_name": "iqn.2004-10.de.m\u00fcnchen:speicher-\u00e4", "iscsi_initiator_session_id": "00023d000002"},
     {"protocol_id": 5, "tpid_format": 1, "iscsi_name": "iqn.2000-01.jp.\u4e2d\u6587:x", "iscsi_initiator_session_id": "00023d00000f"},
+    # session ids are hexadecimal TEXT: upper case, leading zeros, an odd number of digits, a name that itself contains ",i,0x"
+    {"protocol_id": 5, "tpid_format": 1, "iscsi_name": "iqn.2000-01.verif:UPPER", "iscsi_initiator_session_id": "00023D0000FF"},
+    {"protocol_id": 5, "tpid_format": 1, "iscsi_name": "iqn.2000-01.verif:zeros", "iscsi_initiator_session_id": "000000000001"},
+    {"protocol_id": 5, "tpid_format": 1, "iscsi_name": "iqn.2000-01.verif:odd", "iscsi_initiator_session_id": "23d000001"},
 ]
 DESIGNATORS = [
     ({"designator_type": 0, "code_set": 1}, {"vendor_specific": b"\x01\x02\x03\x04\x05"}),
@@ -391,6 +395,49 @@ def readcd_response(est, mcsb, c2, sc, lba, tl):
     return data, exp
 
 
+class _CdDrive(object):
+    """a plain device object: answers INQUIRY as a CD/DVD device and READ CD with the given bytes, transferring at most as many
+    bytes as the data-in buffer the library offers (what every transport does)"""
+
+    def __init__(self, answer):
+        import pyscsi.pyscsi.scsi_enum_command as E
+        self.opcodes = E.spc
+        self.answer = answer
+        self.offered = None
+
+    def execute(self, cmd, en_raw_sense=False):
+        if cmd.cdb[0] == 0x12 and len(cmd.datain):
+            cmd.datain[0] = 0x05
+            if len(cmd.datain) > 4:
+                cmd.datain[4] = 31
+        elif cmd.cdb[0] == 0xBE:
+            self.offered = len(cmd.datain)
+            n = min(len(self.answer), len(cmd.datain))
+            cmd.datain[:n] = self.answer[:n]
+
+    def close(self):
+        pass
+
+
+def readcd_via_facade(case, data, exp, fmt):
+    """the same conformant answer on its way through SCSI.readcd(): the buffer the library offers must hold it, the result must be it"""
+    from pyscsi.pyscsi.scsi import SCSI
+    _, est, mcsb, c2, sc, lba, tl, tail = case
+    if tl == 0:
+        return []
+    dev = _CdDrive(data[:len(data) - tail] if tail else data)
+    try:
+        cmd = SCSI(dev).readcd(lba, tl, est=est, mcsb=mcsb, c2ei=c2, scsb=sc)
+    except Exception as e:   # noqa: BLE001
+        return [("%s/facade_raises" % fmt, "%s through SCSI.readcd raised %s: %s" % (fmt, type(e).__name__, e))]
+    out = []
+    if dev.offered is not None and dev.offered < len(dev.answer):
+        out.append(("%s/facade_buffer_too_small" % fmt, "%s (est=%d mcsb=%#x c2ei=%d scsb=%d, %d sectors): the drive answers with %d bytes, the library offered a %d byte buffer"
+                    % (fmt, est, mcsb, c2, sc, tl, len(dev.answer), dev.offered)))
+    compare(exp, cmd.result, "", out, fmt + "/facade")
+    return out
+
+
 def run_case(case, obs=None):
     if case[0] == "aba":
         return run_aba_star(case[1], case[2] if case[2] and isinstance(case[2][0], list) else [case[2]])
@@ -405,6 +452,8 @@ def run_case(case, obs=None):
         obs.append(hash(data))
         obs.append((fmt, exp, got))
     compare(exp, got, "", out, fmt)
+    if case[0] == "readcd" and not out:
+        out += readcd_via_facade(case, data, exp, fmt)
     if bytes(buf) != bytes(data):
         out.append(("%s/input_buffer_modified" % fmt, "%s: decoding changed the data-in buffer it was given" % fmt))
     elif not out:
